@@ -55,12 +55,21 @@ TIngest ==
      ELSE /\ sumOf' = Put(sumOf, Ev.cid, Ev.sum)
           /\ cidOf' = Put(cidOf, Ev.sum, Ev.cid)
 
+\* re-committing through the command line: unchanged content is detected as "no change"
+\* (no new commit), changed content creates a commit
+TRecommit == /\ Ev.op = "recommit"
+             /\ \/ Ev.err = "" /\ Ev.newcommit = ~Ev.samecontent
+                \/ /\ ~(Ev.err = "" /\ Ev.newcommit = ~Ev.samecontent)
+                   /\ PrintT(<<"BROKEN", l, IF Ev.err # "" THEN "cli-error" ELSE "recommit-" \o Ev.step>>)
+                   /\ FALSE
+             /\ UNCHANGED <<sumOf, cidOf>>
+
 TReset == Ev.op = "reset" /\ sumOf' = <<>> /\ cidOf' = <<>>
 
 Init == l = 1 /\ sumOf = <<>> /\ cidOf = <<>>
 Next == /\ l <= Len(TLog)
         /\ l' = l + 1
-        /\ (TReset \/ TIngest)
+        /\ (TReset \/ TIngest \/ TRecommit)
 Spec == Init /\ [][Next]_vars
 Constr == Mark(l)
 =============================================================================
